@@ -1,7 +1,200 @@
 import M3d.Basic
-/-! Line-protocol handler for C01. Core-only. (stub) -/
+import M3d.Model.MarchingMesh
+import M3d.Gen.McTable
+/-! Line-protocol handler for C01. Core-only. -/
 namespace M3d.Drv.C01
+open M3d M3d.Marching
 
-def handleAll (ws : List String) : Option String := none
+/-- bit string "0101…" → lookup -/
+def bitsOf (s : String) : Array Bool := (s.toList.map (· == '1')).toArray
+
+def showGV (v : GV) : String := s!"{v.1}.{v.2.1}.{v.2.2}"
+def showGV2 (v : GV2) : String := s!"{v.1}.{v.2}"
+
+def strLt (a b : String) : Bool := a < b
+
+/-! #### executable manifold deciders on id soups (used on the model mesh and on real outputs) -/
+
+/-- directed edges of a triangle soup over Nat ids -/
+def soupEdges (ts : List (Nat × Nat × Nat)) : List (Nat × Nat) :=
+  ts.flatMap fun t => [(t.1, t.2.1), (t.2.1, t.2.2), (t.2.2, t.1)]
+
+def countP (es : Array (Nat × Nat)) (d : Nat × Nat) : Nat :=
+  es.foldl (fun n e => if e.1 == d.1 && e.2 == d.2 then n + 1 else n) 0
+
+/-- every directed edge once, its reverse once; no degenerate triangle -/
+def edgeBalanced (ts : List (Nat × Nat × Nat)) : Bool :=
+  let es := (soupEdges ts).toArray
+  ts.all (fun t => t.1 != t.2.1 && t.2.1 != t.2.2 && t.1 != t.2.2) &&
+  es.all fun d => countP es d == 1 && countP es (d.2, d.1) == 1
+
+/-- fan at v is one cycle: arcs p→q of triangles (v,p,q); follow from the first arc. -/
+partial def fanCycle (arcs : List (Nat × Nat)) : Bool :=
+  match arcs with
+  | [] => true
+  | a0 :: _ =>
+    let rec go (cur : Nat) (rest : List (Nat × Nat)) (fuel : Nat) : Bool :=
+      match fuel with
+      | 0 => false
+      | fuel + 1 =>
+        match rest.find? (fun a => a.1 == cur) with
+        | none => rest.isEmpty && cur == a0.1
+        | some a => go a.2 (rest.erase a) fuel
+    go a0.1 arcs (arcs.length + 1)
+
+def fanConnected (ts : List (Nat × Nat × Nat)) : Bool :=
+  let vs := (ts.flatMap fun t => [t.1, t.2.1, t.2.2]).eraseDups
+  vs.all fun v =>
+    fanCycle (ts.filterMap fun t =>
+      if t.1 == v then some (t.2.1, t.2.2)
+      else if t.2.1 == v then some (t.2.2, t.1)
+      else if t.2.2 == v then some (t.1, t.2.1) else none)
+
+/-- intern arbitrary keys to Nat ids -/
+def intern (keys : List String) : List Nat :=
+  let (_, ids) := keys.foldl (fun (acc : List String × List Nat) k =>
+    match acc.1.idxOf? k with
+    | some i => (acc.1, acc.2 ++ [i])
+    | none => (acc.1 ++ [k], acc.2 ++ [acc.1.length])) ([], [])
+  ids
+
+def tripleUp : List Nat → List (Nat × Nat × Nat)
+  | a :: b :: c :: rest => (a, b, c) :: tripleUp rest
+  | _ => []
+
+def pairUp : List Nat → List (Nat × Nat)
+  | a :: b :: rest => (a, b) :: pairUp rest
+  | _ => []
+
+/-- `mc nx ny nz bits` : marching cubes of a lattice labelling.  Output: verdicts of the
+deciders on the model mesh, then the sorted triangle list. -/
+def handleMc (ws : List String) : Option String := do
+  let [nx, ny, nz, bits] := ws | none
+  let nx ← nx.toNat?; let ny ← ny.toNat?; let nz ← nz.toNat?
+  let b := bitsOf bits
+  if b.size ≠ nx * ny * nz then none
+  -- points 0..n+1 per axis, the outer layer is outside; cells 0..n
+  let lab : Nat → Nat → Nat → Bool := fun x y z =>
+    if x = 0 || y = 0 || z = 0 || x > nx || y > ny || z > nz then false
+    else b.getD ((x-1) + nx * ((y-1) + ny * (z-1))) false
+  let mesh := mcMesh Gen.mcTable (nx+1) (ny+1) (nz+1) lab
+  let strs := mesh.map fun t => s!"{showGV t.1},{showGV t.2.1},{showGV t.2.2}"
+  let ids := tripleUp (intern (mesh.flatMap fun t => [showGV t.1, showGV t.2.1, showGV t.2.2]))
+  let sorted := (strs.toArray.qsort strLt).toList
+  -- orientation: exact signed volume (×6, doubled coordinates) of the model mesh is positive
+  let vol : Int := mesh.foldl (fun acc t =>
+    let a := t.1; let b := t.2.1; let c := t.2.2
+    let ax : Int := a.1; let ay : Int := a.2.1; let az : Int := a.2.2
+    let bx : Int := b.1; let by' : Int := b.2.1; let bz : Int := b.2.2
+    let cx : Int := c.1; let cy : Int := c.2.1; let cz : Int := c.2.2
+    acc + (ax * (by' * cz - bz * cy) - ay * (bx * cz - bz * cx) + az * (bx * cy - by' * cx))) 0
+  let outward := mesh.isEmpty || vol > 0
+  some s!"balanced={boolStr (edgeBalanced ids)} fans={boolStr (fanConnected ids)} outward={boolStr outward} n={mesh.length} {";".intercalate sorted}"
+
+def inOutOneIds (segs : List (Nat × Nat)) : Bool :=
+  let a := segs.toArray
+  segs.all fun s =>
+    s.1 != s.2 &&
+    a.foldl (fun n t => if t.1 == s.1 then n + 1 else n) 0 == 1 &&
+    a.foldl (fun n t => if t.2 == s.1 then n + 1 else n) 0 == 1 &&
+    a.foldl (fun n t => if t.1 == s.2 then n + 1 else n) 0 == 1 &&
+    a.foldl (fun n t => if t.2 == s.2 then n + 1 else n) 0 == 1
+
+/-- `ms nx ny bits` : marching squares of a lattice labelling. -/
+def handleMs (ws : List String) : Option String := do
+  let [nx, ny, bits] := ws | none
+  let nx ← nx.toNat?; let ny ← ny.toNat?
+  let b := bitsOf bits
+  if b.size ≠ nx * ny then none
+  let lab : Nat → Nat → Bool := fun x y =>
+    if x = 0 || y = 0 || x > nx || y > ny then false else b.getD ((x-1) + nx * (y-1)) false
+  let mesh := msMesh Gen.msTable (nx+1) (ny+1) lab
+  let strs := mesh.map fun s => s!"{showGV2 s.1},{showGV2 s.2}"
+  let ids := pairUp (intern (mesh.flatMap fun s => [showGV2 s.1, showGV2 s.2]))
+  let sorted := (strs.toArray.qsort strLt).toList
+  -- orientation: contained side on the right of every segment ⇒ shoelace sum negative
+  let area2 : Int := mesh.foldl (fun acc s =>
+    let x1 : Int := s.1.1; let y1 : Int := s.1.2; let x2 : Int := s.2.1; let y2 : Int := s.2.2
+    acc + (x1 * y2 - x2 * y1)) 0
+  let outward := mesh.isEmpty || area2 < 0
+  some s!"inout={boolStr (inOutOneIds ids)} outward={boolStr outward} n={mesh.length} {";".intercalate sorted}"
+
+/-- `bitmap w h bits` : Bitmap.Mesh. Points are quarter pixels, shifted by one pixel (+4). -/
+def handleBitmap (ws : List String) : Option String := do
+  let [w, h, bits] := ws | none
+  let w ← w.toNat?; let h ← h.toNat?
+  let b := bitsOf bits
+  if b.size ≠ w * h then none
+  let g : Nat → Nat → Bool := fun i j =>
+    if i = 0 || j = 0 || i > w || j > h then false else b.getD ((i-1) + w * (j-1)) false
+  let segs := bitmapMesh g w h
+  let showP := fun (p : Nat) => s!"{p / 65536}.{p % 65536}"
+  let strs := segs.map fun s => s!"{showP (segStart s)},{showP (segEnd s)}"
+  let sorted := (strs.toArray.qsort strLt).toList
+  let area2 : Int := segs.foldl (fun acc s =>
+    let a := segStart s; let b := segEnd s
+    let x1 : Int := a / 65536; let y1 : Int := a % 65536; let x2 : Int := b / 65536; let y2 : Int := b % 65536
+    acc + (x1 * y2 - x2 * y1)) 0
+  let outward := segs.isEmpty || area2 < 0
+  some s!"inout={boolStr (inOutOne segs)} outward={boolStr outward} n={segs.length} {";".intercalate sorted}"
+
+/-- exact signed volume ×6 of a soup with rational vertex coordinates -/
+def signedVol6 (vs : Array (Rat × Rat × Rat)) (ts : List (Nat × Nat × Nat)) : Rat :=
+  ts.foldl (fun acc t =>
+    let a := vs.getD t.1 (0,0,0); let b := vs.getD t.2.1 (0,0,0); let c := vs.getD t.2.2 (0,0,0)
+    acc + (a.1 * (b.2.1 * c.2.2 - b.2.2 * c.2.1) - a.2.1 * (b.1 * c.2.2 - b.2.2 * c.1)
+      + a.2.2 * (b.1 * c.2.1 - b.2.1 * c.1))) 0
+
+/-- `soup3 nv <x y z hex>*nv nt <a b c>*nt` : a real generator's output; verdict of the deciders
+plus the sign of the exact signed volume (outward orientation). -/
+def handleSoup3 (ws : List String) : Option String := do
+  let nv ← (← ws.head?).toNat?
+  let cs ← ((ws.drop 1).take (3 * nv)).mapM fun h => do
+    let n ← parseHex h
+    ratOfBits n.toUInt64
+  if cs.length ≠ 3 * nv then none
+  let rec trip : List Rat → List (Rat × Rat × Rat)
+    | a :: b :: c :: r => (a, b, c) :: trip r
+    | _ => []
+  let vs := (trip cs).toArray
+  let ws := ws.drop (1 + 3 * nv)
+  let nt ← (← ws.head?).toNat?
+  let ids ← parseNats ((ws.drop 1).take (3 * nt))
+  if ids.length ≠ 3 * nt then none
+  let ts := tripleUp ids
+  let vol := signedVol6 vs ts
+  some s!"balanced={boolStr (edgeBalanced ts)} fans={boolStr (fanConnected ts)} outward={boolStr (decide (vol > 0))}"
+
+/-- `soup2 ns <a b>*ns` : a real 2-D generator's output as id pairs. -/
+def handleSoup2 (ws : List String) : Option String := do
+  let ns ← (← ws.head?).toNat?
+  let ids ← parseNats ((ws.drop 1).take (2 * ns))
+  if ids.length ≠ 2 * ns then none
+  some s!"inout={boolStr (inOutOneIds (pairUp ids))}"
+
+/-- `tablecheck` : which local obligations of Props/C01 fail on the regenerated tables, and where
+(used to name the failing configuration when a theorem no longer checks). -/
+def handleTableCheck : String :=
+  let t := Gen.mcTable
+  let bad (name : String) (f : Nat → Bool) (n : Nat) : List String :=
+    ((List.range n).filter fun c => !f c).map fun c => s!"{name}@{c}"
+  let l := bad "mc_rows_wellformed" (fun c => rowWellFormed c (getRow t c)) 256 ++
+    bad "mc_cell_interior_balanced" (fun c => interiorBalanced (getRow t c)) 256 ++
+    bad "mc_face_determined" (fun c => faceDetermined t c) 256 ++
+    bad "mc_face_opposite" (fun i => faceOpposite t (i / 16) (i % 16)) 48 ++
+    bad "mc_fan_is_outward_path" (fun c => fansOk c (getRow t c)) 256 ++
+    bad "ms_rows_wellformed" (fun c => msRowWellFormed c (getRow Gen.msTable c)) 16 ++
+    bad "ms_role_rule" (fun c => msRoleRule c (getRow Gen.msTable c)) 16
+  if l.isEmpty then "ok" else " ".intercalate l
+
+def handleAll (ws : List String) : Option String :=
+  match ws with
+  | ["tablecheck"] => some handleTableCheck
+  | "mc" :: rest => handleMc rest
+  | "ms" :: rest => handleMs rest
+  | "bitmap" :: rest => handleBitmap rest
+  | "soup3" :: rest => handleSoup3 rest
+  | "soup2" :: rest => handleSoup2 rest
+  | _ => none
 
 end M3d.Drv.C01
